@@ -174,6 +174,13 @@ def type_compat(norm, rt):
 class FnEntry:
     __slots__ = ('mf', 'idx', 'name', 'simple', 'argnorm', 'retnorm', 'impl_span', 'closure_span', 'header')
 
+    def __getstate__(self):
+        return tuple(getattr(self, k) for k in self.__slots__)
+
+    def __setstate__(self, st):
+        for k, v in zip(self.__slots__, st):
+            setattr(self, k, v)
+
 
 class CalleeInfo:
     __slots__ = ('path', 'qself', 'trait', 'prefix', 'name', 'qbase', 'tbase', 'targ', 'pbase', 'key')
@@ -245,8 +252,46 @@ class Program:
         self._impl_self = {}
         self._src_cache = {}
         self.encoded = {}   # function name -> blocks (evidence)
+        self._find_cache = {}
 
     def _index(self):
+        import pickle
+        key = tuple(sorted((c, os.path.getsize(mf.path), os.stat(mf.path).st_mtime_ns) for c, mf in self.files.items()))
+        cpath = os.path.join(os.path.dirname(next(iter(self.files.values())).path), 'fnindex.pickle') if self.files else None
+        if cpath and os.path.exists(cpath):
+            try:
+                with open(cpath, 'rb') as fh:
+                    k, by_simple, closures, const_items = pickle.load(fh)
+                if k == key:
+                    for lst in by_simple.values():
+                        for e in lst:
+                            e.mf = self.files[e.mf]
+                    for lst in closures.values():
+                        for e in lst:
+                            if isinstance(e.mf, str):
+                                e.mf = self.files[e.mf]
+                    self.by_simple, self.closures = by_simple, closures
+                    self.const_items = {n: [(a, self.files[b], c, d) for a, b, c, d in v] for n, v in const_items.items()}
+                    return
+            except Exception:
+                pass
+        self._index_build()
+        if cpath:
+            try:
+                for lst in self.by_simple.values():
+                    for e in lst:
+                        e.mf = e.mf.crate
+                ci = {n: [(a, b.crate, c, d) for a, b, c, d in v] for n, v in self.const_items.items()}
+                with open(cpath + '.tmp', 'wb') as fh:
+                    pickle.dump((key, self.by_simple, self.closures, ci), fh)
+                os.replace(cpath + '.tmp', cpath)
+            finally:
+                for lst in self.by_simple.values():
+                    for e in lst:
+                        if isinstance(e.mf, str):
+                            e.mf = self.files[e.mf]
+
+    def _index_build(self):
         for c, mf in self.files.items():
             for idx, (hdr, a, b) in enumerate(mf.items):
                 if hdr.startswith('fn '):
@@ -341,7 +386,15 @@ class Program:
         return r
 
     def find_fn(self, simple, arg_rts, nargs, ret=None, self_base=None, trait=None):
-        """candidates in the MIR dumps matching the constraints"""
+        """candidates in the MIR dumps matching the constraints (memoised)"""
+        key = (simple, tuple(arg_rts), nargs, ret, self_base, trait)
+        r = self._find_cache.get(key)
+        if r is None:
+            r = self._find_fn(simple, arg_rts, nargs, ret, self_base, trait)
+            self._find_cache[key] = r
+        return r
+
+    def _find_fn(self, simple, arg_rts, nargs, ret=None, self_base=None, trait=None):
         cands = []
         for e in self.by_simple.get(simple, ()):
             if len(e.argnorm) != nargs:
